@@ -77,6 +77,8 @@ func efundScenario() *Scenario {
 	// a granter that itself holds locked eFUND pays the fees of payers with locked eFUND
 	fg := one("feegrant(PA->PC,PD)", model.Tx{Msgs: []model.Msg{{Kind: model.FeeGrant, From: "PA", To: "PC"}, {Kind: model.FeeGrant, From: "PA", To: "PD"}}})
 	fg.PrefixOnly = true
+	// the in-place software upgrade (enterprise parameters move into the module store): books and unlock rule are untouched by it
+	s.Actions = append(s.Actions, upgradeAct())
 	s.Actions = append(s.Actions, fg)
 	s.Prefix = []string{"raise(PA,50)", "raise(PB,50)", "raise(PC,5)", "raise(PD,5)", "accept(S1,#1)", "accept(S1,#2)", "accept(S1,#3)", "accept(S1,#4)", "feegrant(G->PA)", "feegrant(PA->PC,PD)", "wait(1s)", "wait(1s)"}
 
